@@ -34,6 +34,11 @@ type Batch[C any] struct {
 	Assume   []string
 	Extra    map[string]any
 	Required []string // counters that must be > 0, else the batch explored nothing (exit 2)
+	// Desired: reach counters of particular fault kinds. A zero there does not make
+	// the batch worthless (the tree may simply have changed HOW it does something);
+	// it is reported on stdout and in the evidence, and the exit status stays what
+	// the oracles say.
+	Desired []string
 }
 
 // RunBatch executes the batch on all workers, folds results in index order,
@@ -140,6 +145,12 @@ func RunBatch[C any](b *Batch[C], start time.Time) *Report {
 		}
 		rep.Violations = append(rep.Violations, v)
 		rep.Replays = append(rep.Replays, path)
+	}
+	for _, k := range b.Desired {
+		if rep.Stats.Counters[k] == 0 {
+			fmt.Printf("REACH-WARNING property=%s %q was never reached in this batch (see evidence notes)\n", b.Property, k)
+			rep.Stats.Note("reach warning: %q stayed at zero: the fault or state it counts never occurred in this batch; the oracles' verdict covers what did occur", k)
+		}
 	}
 	if len(rep.Violations) == 0 {
 		for _, k := range b.Required {
